@@ -393,7 +393,9 @@ class LockCheck(Check):
 class C01(LockCheck):
     lean_module = 'CppUtil.Props.C01'
     theorems = ['CppUtil.Props.c01_pess', 'CppUtil.Props.c01_opt', 'CppUtil.Props.c01_word_counts_pess',
-                'CppUtil.Props.c01_word_counts_opt', 'CppUtil.WLock.pess_specs', 'CppUtil.WLock.opt_specs']
+                'CppUtil.Props.c01_word_counts_opt', 'CppUtil.WLock.pess_specs', 'CppUtil.WLock.opt_specs',
+                'CppUtil.Props.c01_mcs', 'CppUtil.Props.mcs_invariant', 'CppUtil.Props.mcs_publish_is_rmw',
+                'CppUtil.Props.McsWordsGen.wordSpecs']
     extra_modules = ['CppUtil.Props.McsBits']
     categories = ['excl', 'payload']
     design_ref = '6 C01'
@@ -453,7 +455,7 @@ class C10(LockCheck):
     lean_module = 'CppUtil.Props.C10'
     theorems = ['CppUtil.Props.c10_no_other_sixx_pess', 'CppUtil.Props.c10_no_other_sixx_opt',
                 'CppUtil.Props.c10_no_gap', 'CppUtil.Props.c10_upgrade_alone_pess',
-                'CppUtil.Props.c10_upgrade_alone_opt']
+                'CppUtil.Props.c10_upgrade_alone_opt', 'CppUtil.Props.c10_mcs']
     categories = ['excl']
 
     def relevant_failure(self, r):
@@ -485,7 +487,8 @@ class C12(LockCheck):
     lean_module = 'CppUtil.Props.C12'
     components = ['mcs']
     theorems = ['CppUtil.Props.c12_unlockS_recycle_test', 'CppUtil.Props.c12_unlockX_recycle_test',
-                'CppUtil.Props.c12_unlockS_tail_test'] + MCS_BITS
+                'CppUtil.Props.c12_unlockS_tail_test', 'CppUtil.Props.c12_mcs_no_use_after_free',
+                'CppUtil.Props.mcs_invariant'] + MCS_BITS
     categories = ['nodes']
 
     def crash_relevant(self):
